@@ -50,6 +50,15 @@ class Check:
             s.update(sample if isinstance(sample, dict) else {'what': sample})
             self.samples.append(s)
 
+    def assume_reviewed(self, keys, reviewed):
+        """a panic edge the machine cannot discharge but a hand-written argument covers: listed as an assumption,
+        never counted as discharged"""
+        for k in keys:
+            note = 'reviewed residual (not machine-discharged): %s -- %s' % (k, reviewed[k]['why'][:160])
+            if note not in self.notes:
+                self.notes.append(note)
+        self.extra['reviewed_residuals_used'] = sorted(set(self.extra.get('reviewed_residuals_used', [])) | set(keys))
+
     def violation(self, rule, key, msg, detail=None):
         """key: stable identifier without line numbers: 'config|subject|rule|instance'"""
         self.obligations += 1
